@@ -23,6 +23,24 @@ is closed (closed is True, file is None, underlying file closed); every urlopen 
 closed and was closed before the Resource for it was created; and a following failure-free
 load (same SchemaLoader / same schema object with a fresh ConfigLoader) gives the
 failure-free outcome.
+
+Wave 2 - two more axes, both about the window between the OPEN of a resource and its FIRST READ
+(the existing fault points - open, read i, conversion k, section datatype s - all lie at or after the
+first read of the innermost open resource, so a resource whose `with` starts late went unnoticed):
+
+* entry point x command-line overrides: the same trees are loaded through every public entry point
+  (ZConfig.loadSchema / loadSchemaFile / loadConfig / loadConfigFile next to the loader methods), the
+  configuration ones with an override set from a small alphabet - none, the top-level key, the key of
+  the first-level / nested section of file j for every configuration file j, an imported section type,
+  all of them at once, an unknown key, an unconsumable path.  With overrides ZConfig uses
+  cmdline.ExtendedConfigLoader, which converts override names with the schema's key type when the
+  schema matcher is created (top resource open, nothing read yet), inside createChildMatcher (while
+  the file that opens the section is being read) and replays the values when a section finishes.  The
+  top-level schema of these scenarios carries keytype=vzdt.keyt and datatype=vzdt.sect, sections are
+  named, so every one of those conversions is an enumerated fault point.
+* back edges: every tree also with every %include edge from a configuration file to itself or to one
+  of its ancestors.  The failure-free load ends in ZConfig's own "resource includes itself" error,
+  raised after the resource was opened once more and before its first line is read.
 """
 import functools
 import os
@@ -127,17 +145,95 @@ def extra_edges(nodes, lo, hi):
     return out
 
 
+def back_edges(nodes, lo, hi):
+    """every %include edge (u, slot, v) inside nodes[lo:hi] from a configuration file u to itself or to
+    one of its ancestors v (the include cycle ZConfig must refuse after opening v once more)"""
+    out = []
+    for v in range(lo, hi):
+        if nodes[v]["kind"] != "C":
+            continue
+        for u in sorted(subtree(nodes, v)):
+            if nodes[u]["kind"] != "C":
+                continue
+            for s, k in enumerate(SLOTS["C"]):
+                if k == "C":
+                    out.append((u, s, v))
+    return out
+
+
+def override_targets(nodes, lo, hi):
+    """option paths of the scenario: (kind, node, path) for the first-level section a<j> and the nested
+    section b<j> of every configuration file j, and for the section <q<c>> of every component c that a
+    configuration file %imports, as seen from the top of the configuration"""
+    prefix = {}
+    out = []
+    for j in range(lo, hi):
+        nd = nodes[j]
+        if nd["kind"] != "C":
+            continue
+        par = nd["parent"]
+        if par is None or par < lo:
+            prefix[j] = []
+        elif nd["slot"] == 0:
+            prefix[j] = prefix[par] + ["a%d" % par]
+        else:
+            prefix[j] = prefix[par]
+        out.append(("sec", j, prefix[j] + ["a%d" % j, "k"]))
+        out.append(("sub", j, prefix[j] + ["a%d" % j, "b%d" % j, "k"]))
+        for c in nd["slots"][1]:
+            out.append(("imp", c, prefix[j] + ["q%d" % c, "k"]))
+    return out
+
+
+def override_list(ov, nodes, lo, hi):
+    """the value specifiers of override set `ov` = [kind] or [kind, node]"""
+    kind = ov[0]
+    tg = override_targets(nodes, lo, hi)
+    if kind == "none":
+        return []
+    if kind == "top":
+        return ["mk=o"]
+    if kind == "unknown":
+        return ["mk=o", "nosuch=1"]
+    if kind == "unconsumed":
+        return ["mk=o", "zz/k=1"]
+    if kind == "all":
+        return ["mk=o", "y0=o"] + ["%s=o%s%d" % ("/".join(p), k, j) for k, j, p in tg if k != "imp"]
+    for k, j, p in tg:
+        if k == kind and j == ov[1]:
+            return ["%s=o%s%d" % ("/".join(p), k, j)]
+    raise core.HarnessError("C19: no override target %r" % (ov,))
+
+
 def scenarios(tier):
     """The explored scenario set (deterministic, independent of the seed)."""
     N = 4 if tier == "quick" else 5
     one = ("S", (), (), ())
     out = []
 
-    def add(family, st, ct, via, extra=None):
+    alt = [0]
+
+    def add(family, st, ct, via, extra=None, api=None, ov=None, cyclic=False, nv=None):
         # quick tier: the largest graphs with an extra edge get one exception variant per point
-        nv = 1 if (tier == "quick" and extra is not None and size(ct or st) >= 4) else 2
-        out.append({"family": family, "schema": st, "config": ct, "via": via, "extra": extra,
-                    "variants": nv})
+        vsel = 0
+        if nv is None:
+            nv = 1 if (tier == "quick" and extra is not None and size(ct or st) >= 4) else 2
+            if tier != "quick" and extra is not None and size(ct or st) >= 5:
+                # thorough tier (CPU bound): 5-resource graphs with an extra edge get one exception variant
+                # per point, the first and the second one alternately from scenario to scenario
+                nv = 1
+                vsel = alt[0]
+                alt[0] ^= 1
+        spec = {"family": family, "schema": st, "config": ct, "via": via, "extra": extra,
+                "variants": nv}
+        if vsel:
+            spec["vsel"] = vsel
+        if api is not None:         # wave 2 keys only where used: wave-1 specs (and replays) unchanged
+            spec["api"] = api
+            spec["ov"] = ov
+        if cyclic:
+            spec["cyclic"] = True
+        out.append(spec)
 
     for n in range(3, N + 1):
         for t in trees("S", n):
@@ -160,6 +256,47 @@ def scenarios(tier):
             for st in trees("S", a):
                 for ct in trees("C", b):
                     add("session", st, ct, "url")
+    # ---- wave 2: public entry points x override sets, and include cycles
+    quick = tier == "quick"
+    for n in range(3, N + 1):
+        for t in trees("S", n):
+            if n > (3 if quick else 4):
+                continue
+            for via in ("url", "file"):
+                add("schema", t, None, via, api="fn")
+        for t in trees("C", n):
+            nodes = []
+            flatten(one, nodes)
+            flatten(t, nodes)
+            big = n >= 4
+            if quick:
+                add("config", one, t, "url", api="fn", ov=["top"])
+                add("config", one, t, "file", api="fn", ov=["top"], nv=1 if big else 2)
+                add("config", one, t, "url", api="ext", ov=["all"], nv=1 if big else 2)
+                add("config", one, t, "url", api="fn", ov=["unknown"], nv=1 if big else 2)
+            elif n <= 4:
+                for k in ("top", "all", "unknown"):
+                    add("config", one, t, "url", api="ext", ov=[k])
+                for k in ("none", "top", "all", "unknown", "unconsumed"):
+                    add("config", one, t, "url", api="fn", ov=[k])
+                for k in ("top", "all"):
+                    add("config", one, t, "file", api="fn", ov=[k])
+                for k, j, _ in override_targets(nodes, 1, len(nodes)):
+                    add("config", one, t, "url", api="fn", ov=[k, j], nv=1 if big else 2)
+            else:
+                add("config", one, t, "url", api="ext", ov=["all"], nv=1)
+            # the refusal of the cycle is a failure of the failure-free run; the fault points in front of it
+            # repeat those of the plain trees, so the largest trees get the failure-free run (+ repeat and
+            # reload with the same loader) only: variants = 0
+            for e in back_edges(nodes, 1, len(nodes)):
+                add("config", one, t, "url", list(e), cyclic=True, nv=0 if n >= (4 if quick else 5) else 2)
+    for a in range(2, N - 1):
+        for b in range(2, N - a + 1):
+            for st in trees("S", a):
+                for ct in trees("C", b):
+                    add("session", st, ct, "url", api="fn", ov=["all"], nv=2 if a + b <= 4 else 1)
+                    if not quick:
+                        add("session", st, ct, "url", api="fn", ov=["top"], nv=2 if a + b <= 4 else 1)
     return out
 
 
@@ -167,11 +304,15 @@ def scenarios(tier):
 # scenario -> files
 
 
-def _schema_text(node, top, serves_config):
+def _schema_text(node, top, serves_config, typed_top=False):
     i = node["i"]
     ext, pkgs, srcs = node["slots"]
     L = []
-    L.append("<schema%s>" % (' extends="%s"' % " ".join("s%d.xml" % c for c in ext) if ext else ""))
+    # typed_top (wave 2, configuration scenarios loaded through the public functions): the schema itself
+    # has the counting key type and section datatype, so the conversion of a top-level key name (in the
+    # file and in a command-line override) and the datatype of the root section are fault points
+    typed = ' keytype="%skeyt" datatype="%ssect"' % (DT, DT) if (top and typed_top) else ""
+    L.append("<schema%s%s>" % (' extends="%s"' % " ".join("s%d.xml" % c for c in ext) if ext else "", typed))
     if top and serves_config:
         L.append('<abstracttype name="ext"/>')
     L.append('<sectiontype name="t%d" keytype="%skeyt" datatype="%ssect">' % (i, DT, DT))
@@ -212,10 +353,13 @@ def _component_text(node, implements):
     return "\n".join(L) + "\n"
 
 
-def _config_text(node):
+def _config_text(node, named=False):
     i = node["i"]
     insec, imps, incs = node["slots"]
-    L = ["mk m%d" % i, "<sec>", "k v%d" % i, "<sec>", "k w%d" % i, "</sec>"]
+    if named:       # wave 2: sections addressable by an option path
+        L = ["mk m%d" % i, "<sec a%d>" % i, "k v%d" % i, "<sec b%d>" % i, "k w%d" % i, "</sec>"]
+    else:
+        L = ["mk m%d" % i, "<sec>", "k v%d" % i, "<sec>", "k w%d" % i, "</sec>"]
     for c in insec:
         L.append("%%include c%d.conf" % c)
     L.append("</sec>")
@@ -252,15 +396,20 @@ def materialize(spec, root):
     m.nodes = nodes
     m.packages = []
     in_config_graph = set(range(ns, len(nodes)))
+    m.api = spec.get("api")
+    m.overrides = None
+    if m.api and has_config:
+        m.overrides = override_list(spec["ov"], nodes, ns, len(nodes))
+    typed = m.overrides is not None
     for nd in nodes:
         i = nd["i"]
         if nd["kind"] == "S":
-            text = _schema_text(nd, i == 0, has_config)
+            text = _schema_text(nd, i == 0, has_config, typed)
             with open(os.path.join(root, "s%d.xml" % i), "w") as f:
                 f.write(text)
         elif nd["kind"] == "C":
             with open(os.path.join(root, "c%d.conf" % i), "w") as f:
-                f.write(_config_text(nd))
+                f.write(_config_text(nd, typed))
         else:
             name = "%s%d" % (PKG, i)
             d = os.path.join(root, name)
@@ -383,6 +532,53 @@ def load_top(loader, path, via):
         return "raised", exc_sig(e, os.path.dirname(path))
 
 
+class SchemaFn:
+    """Entry point `ZConfig.loadSchema` / `ZConfig.loadSchemaFile` (a fresh SchemaLoader per call)."""
+
+    def loadURL(self, url):
+        import ZConfig
+        return ZConfig.loadSchema(url)
+
+    def loadFile(self, file, url):
+        import ZConfig
+        return ZConfig.loadSchemaFile(file, url)
+
+
+class ConfigFn:
+    """Entry point `ZConfig.loadConfig` / `ZConfig.loadConfigFile` with `overrides` (a fresh loader per
+    call: ConfigLoader without, cmdline.ExtendedConfigLoader with overrides)."""
+
+    def __init__(self, schema, overrides):
+        self.schema = schema
+        self.overrides = overrides
+
+    def loadURL(self, url):
+        import ZConfig
+        return ZConfig.loadConfig(self.schema, url, overrides=list(self.overrides))
+
+    def loadFile(self, file, url):
+        import ZConfig
+        return ZConfig.loadConfigFile(self.schema, file, url, overrides=list(self.overrides))
+
+
+class Inst(F.Instrument):
+    """Instrument that also notes, in the recording run, whether a conversion / section-datatype point
+    lies in the window between the open of the innermost open resource and its first read."""
+
+    def _dt(self, kind, value):
+        if not (self.active and self.record):
+            return F.Instrument._dt(self, kind, value)
+        window = False
+        for rec in reversed(self.resources):
+            if not rec["res"].closed:
+                window = rec["reads"] == 0
+                break
+        n0 = len(self.points)
+        F.Instrument._dt(self, kind, value)
+        if len(self.points) > n0:
+            self.points[-1]["window"] = window
+
+
 def _probs(inst, phase, seen, out):
     for p in inst.check():
         p = dict(p, phase=phase)
@@ -407,7 +603,10 @@ def run_session(m, inst, fault=None, record=False, reuse=None):
         res["sl"] = reuse["sl"]
         res["sdig"] = reuse["sdig"]
     else:
-        sl = reuse["sl"] if reuse is not None else SchemaLoader()
+        if m.api and m.config_path is None:
+            sl = SchemaFn()
+        else:
+            sl = reuse["sl"] if reuse is not None else SchemaLoader()
         res["sl"] = sl
         inst.active = armed_schema
         st, val = load_top(sl, m.schema_path, m.via if armed_schema else "url")
@@ -425,7 +624,15 @@ def run_session(m, inst, fault=None, record=False, reuse=None):
     if m.config_path is None:
         res["outcome"] = ("schema-ok", res["sdig"])
         return res
-    cl = ConfigLoader(schema)
+    if m.overrides is None:
+        cl = ConfigLoader(schema)
+    elif m.api == "ext":        # the loader object itself (what loadConfig builds), kept for a reload
+        from ZConfig.cmdline import ExtendedConfigLoader
+        cl = ExtendedConfigLoader(schema)
+        for o in m.overrides:
+            cl.addOption(o)
+    else:
+        cl = ConfigFn(schema, m.overrides)
     res["cl"] = cl
     inst.active = True
     st, val = load_top(cl, m.config_path, m.via if not armed_schema else "url")
@@ -488,15 +695,31 @@ def check_scenario(spec, root, inst, acc, only_fault=None, verbose=False):
         nres = len(inst.resources)
         kinds = {p["kind"] for p in points}
         kinds = {"read" if k == "rawread" else k for k in kinds}
-        need = {"read", "open", "conv"} | ({"sect"} if spec["config"] else set())
-        if nres < 3 or not need <= kinds:
+        # scenarios whose failure-free load ZConfig itself refuses half-way: an include cycle is refused as
+        # soon as the second Resource (the file opened once more) exists, an override addressed to an
+        # %import-ed section type when that section opens (top + component = 2 Resources at least); section
+        # datatypes run when the enclosing section finishes, which a cycle in a first <sec> precedes
+        refused = bool(spec.get("cyclic")) or (spec.get("ov") or [None])[0] == "imp"
+        need = {"read", "open", "conv"} | ({"sect"} if spec["config"] and not spec.get("cyclic") else set())
+        if nres < (2 if refused else 3) or not need <= kinds:
             acc.extra["scenarios_rejected_as_vacuous"] += 1
             return False
         acc.states += 1
         acc.extra["scenarios_" + spec["family"]] += 1
         acc.extra["scenarios_via_" + spec["via"]] += 1
-        if spec.get("extra"):
+        if spec.get("cyclic"):
+            acc.extra["scenarios_with_back_edge"] += 1
+            acc.cls("back-edge-failure-free:" + outcome_class(rec) + ":" + (
+                "refused-as-cycle" if "includes itself" in str(rec["outcome"][2][1]) else "other"))
+        elif spec.get("extra"):
             acc.extra["scenarios_with_extra_edge"] += 1
+        if spec.get("api"):
+            acc.extra["scenarios_entry_" + ("ExtendedConfigLoader.load" if spec["api"] == "ext" else
+                                            "loadSchema" if spec["config"] is None else "loadConfig")
+                      + ("File" if spec["via"] == "file" else "URL" if spec["api"] == "ext" else "")] += 1
+            if spec.get("ov"):
+                acc.extra["scenarios_overrides_" + spec["ov"][0]] += 1
+                acc.cls("overrides-%s-failure-free:%s" % (spec["ov"][0], outcome_class(rec)))
         acc.extra["resources_seen"] += nres
         ff = rec["outcome"]
         acc.ev()
@@ -508,11 +731,17 @@ def check_scenario(spec, root, inst, acc, only_fault=None, verbose=False):
             acc.violation("later-load-differs", {"spec": spec, "fault": None}, again["outcome"], ff,
                           tags={"kind": "later-load-differs", "family": spec["family"], "after": "failure-free"},
                           size=_size(spec, None))
+        if spec.get("cyclic") and rec["failed_in"] == "config":
+            same_loader_reload(m, inst, acc, spec, None, rec, ff, verbose)
         if verbose:
             print("  failure-free outcome:", outcome_class(rec), " points:", len(points), " resources:", nres)
+            if m.overrides is not None:
+                print("  overrides:", m.overrides)
         for p in points:
             first = True
-            for exc in variants(p, how.get(p["a"]))[:spec.get("variants", 2)]:
+            vs = variants(p, how.get(p["a"]))
+            nv = spec.get("variants", 2)
+            for exc in (vs[spec.get("vsel", 0):][:1] if nv == 1 else vs[:nv]):
                 fault = [p["kind"], p["a"], p["b"], exc]
                 if only_fault is not None and fault != only_fault:
                     continue
@@ -531,6 +760,8 @@ def check_scenario(spec, root, inst, acc, only_fault=None, verbose=False):
                     if p["depth"] >= 1:
                         acc.nt()
                         acc.extra["points_nested_" + p["kind"]] += 1
+                    if p.get("window"):
+                        acc.extra["points_between_open_and_first_read_" + p["kind"]] += 1
                     first = False
                 oc = outcome_class(res)
                 acc.cls("faulted:" + oc)
@@ -545,7 +776,7 @@ def check_scenario(spec, root, inst, acc, only_fault=None, verbose=False):
                                         "after": "fault-in-" + p["kind"], "exc": exc,
                                         "failed_in": res["failed_in"]},
                                   size=_size(spec, fault))
-                if spec.get("extra") is None and res["failed_in"] == "config":
+                if spec.get("extra") is None and res["failed_in"] == "config" and spec.get("api") != "fn":
                     same_loader_reload(m, inst, acc, spec, fault, res, ff, verbose)
                 if verbose:
                     print("  fault %r -> %s; problems=%d; later load %s" % (
@@ -556,7 +787,9 @@ def check_scenario(spec, root, inst, acc, only_fault=None, verbose=False):
                 acc.sample(lambda: {"family": spec["family"], "schema": spec["schema"],
                                     "config": spec["config"], "extra": spec.get("extra"),
                                     "via": spec["via"], "fault": fault, "at": p["url"],
-                                    "depth": p["depth"], "outcome": oc})
+                                    "depth": p["depth"], "outcome": oc,
+                                    "entry": spec.get("api"), "overrides": m.overrides,
+                                    "back_edge": bool(spec.get("cyclic"))})
         return True
     finally:
         inst.end()
@@ -586,6 +819,11 @@ def same_loader_reload(m, inst, acc, spec, fault, res, ff, verbose):
 
     def has_package(t):
         return t[0] == "P" or any(has_package(c) for sl in t[1:] for c in sl)
+    after = "fault-in-" + fault[0] if fault else "refused-include-cycle"
+    if type(res["cl"]).__name__ == "ExtendedConfigLoader":
+        acc.extra["reloads_with_failed_ExtendedConfigLoader"] += 1
+    if not fault:
+        acc.extra["reloads_with_refusing_ConfigLoader"] += 1
     if cfg == ff[2]:
         acc.extra["observed_reload_with_failed_ConfigLoader_same_outcome"] += 1
     elif not has_package(tuple_tree(spec["config"])):
@@ -593,10 +831,11 @@ def same_loader_reload(m, inst, acc, spec, fault, res, ff, verbose):
         # only exists after an %import), so the failed load must have left nothing behind in it either
         acc.violation("later-load-differs", {"spec": spec, "fault": fault}, cfg, ff[2],
                       tags={"kind": "later-load-differs", "family": spec["family"],
-                            "after": "fault-in-" + fault[0], "loader": "same ConfigLoader instance (no %import)"},
+                            "after": after, "loader": "same ConfigLoader instance (no %import)",
+                            "class": type(res["cl"]).__name__},
                       size=_size(spec, fault))
     else:
-        acc.extra["observed_reload_with_failed_ConfigLoader_differs_after_fault_in_" + fault[0]] += 1
+        acc.extra["observed_reload_with_failed_ConfigLoader_differs_after_" + after.replace("-", "_")] += 1
         if verbose:
             print("  (observation) reload with the failed ConfigLoader instance differs:", cfg[0],
                   cfg[1] if cfg[0] == "raised" else "")
@@ -605,7 +844,7 @@ def same_loader_reload(m, inst, acc, spec, fault, res, ff, verbose):
 def shard_func(shard, acc):
     import ZConfig  # noqa: F401  (from core.REPO_SRC)
     root = tempfile.mkdtemp(prefix="vzc19-", dir="/dev/shm")
-    inst = F.Instrument()
+    inst = Inst()
     path0 = list(sys.path)
     try:
         inst.install()
@@ -620,6 +859,30 @@ def shard_func(shard, acc):
     return acc
 
 
+WAVE2_BOUNDS = {
+    "quick": {
+        "override_sets": "every configuration tree of 3..4 files: loadConfig x {top-level key; top-level key + "
+                         "unknown key}, loadConfigFile x {top-level key}, ExtendedConfigLoader.loadURL x {all "
+                         "targets at once}; sessions (2+2 resources): loadConfig x {all}; 4-file trees: first "
+                         "exception variant only except loadConfig x {top-level key}; loadSchema / "
+                         "loadSchemaFile: 3-resource schema trees",
+        "back_edges": "every configuration tree of 3..4 files x every (file, %include slot, ancestor-or-self) "
+                      "edge; 3-file trees with every fault point in front of the refusal, 4-file trees: "
+                      "failure-free run (the refusal itself), its repeat and the reload with the same loader only"},
+    "thorough": {
+        "override_sets": "configuration trees of 3..4 files: loadConfig x {none, top, all, unknown, unconsumed}, "
+                         "loadConfigFile x {top, all}, ExtendedConfigLoader.loadURL x {top, all, unknown}, "
+                         "loadConfig x {each single first-level / nested / imported-type section target} (4-file "
+                         "trees: first exception variant only); trees of 5 files: ExtendedConfigLoader x {all} "
+                         "(first variant only); all sessions: loadConfig x {top, all} (5 resources: first "
+                         "variant only); loadSchema / loadSchemaFile: schema trees of 3..4 resources",
+        "back_edges": "every configuration tree of 3..5 files x every (file, %include slot, ancestor-or-self) "
+                      "edge; 3..4-file trees with every fault point in front of the refusal x 2 variants, 5-file "
+                      "trees: failure-free run (the refusal itself), its repeat and the reload with the same "
+                      "loader only"},
+}
+
+
 def run(tier):
     N = 4 if tier == "quick" else 5
     specs = scenarios(tier)
@@ -632,20 +895,46 @@ def run(tier):
              "resource j, k-th datatype conversion, i-th section datatype call) and the scenario is re-run once "
              "per point and exception variant with exactly that point failing.  Non-trivial = fault point "
              "passed while a resource is open around it (nesting depth >= 1), counted once per (scenario, point); "
-             "scenarios are distinct labelled graphs and shards partition them." % N,
+             "scenarios are distinct labelled graphs and shards partition them.  "
+             "Wave 2, the window between the open of a resource and its first read: (a) entry point x "
+             "command-line overrides - the trees are also loaded through ZConfig.loadSchema / loadSchemaFile / "
+             "loadConfig / loadConfigFile and through a cmdline.ExtendedConfigLoader object (reloaded after a "
+             "failed load), the configuration ones with an override set from the alphabet {none, top-level key, "
+             "key of the first-level section of file j, key of the nested section of file j, key of an "
+             "%%import-ed section type, all of these at once, unknown key, unconsumable path}; the top-level schema "
+             "then has keytype=vzdt.keyt and datatype=vzdt.sect and sections are named, so the conversion of every "
+             "override name (when the schema matcher is created: top resource open, nothing read; inside "
+             "createChildMatcher while the file opening the section is open) and the replay of every override value "
+             "are fault points; (b) back edges - every tree with every %%include edge from a configuration file to "
+             "itself or an ancestor: the failure-free load is refused by ZConfig ('resource includes itself') after "
+             "the file was opened once more and before its first line is read, and the fault points before it are "
+             "enumerated as usual; the refused load is followed by a reload with the same ConfigLoader." % N,
         bounds={"max_resources": N, "min_resources": 3, "scenarios_generated": len(specs),
+                "wave2_entry_points": ["ZConfig.loadSchema", "ZConfig.loadSchemaFile", "ZConfig.loadConfig",
+                                       "ZConfig.loadConfigFile", "cmdline.ExtendedConfigLoader(schema).loadURL"],
+                "wave2_override_sets": WAVE2_BOUNDS[tier]["override_sets"],
+                "wave2_back_edges": WAVE2_BOUNDS[tier]["back_edges"],
+                "wave2_scenarios": sum(1 for sp in specs if sp.get("api") or sp.get("cyclic")),
                 "exception_variants": {"read/rawread": ["OSError", "InjectedFault(RuntimeError)"],
                                        "open": ["OSError", "URLError (URL) / InjectedFault (package)"],
                                        "conv/sect": ["ValueError", "InjectedFault(RuntimeError)"]},
                 "faults_per_run": 1,
                 "quick_tier_reduction": "scenarios with 4 resources AND an extra edge get only the first "
-                                        "exception variant per point (thorough: both variants everywhere)"
-                if tier == "quick" else None})
+                                        "exception variant per point" if tier == "quick" else None,
+                "thorough_tier_reduction": None if tier == "quick" else
+                "CPU bound of about 6000 CPU-seconds: scenarios with 5 resources AND an extra edge get one exception "
+                "variant per point instead of two (the first and the second variant alternately from scenario to "
+                "scenario; all scenarios with <= 4 resources and all 5-resource trees without an extra edge keep "
+                "both); wave-2 axes on 5-resource graphs reduced as stated in wave2_*"})
     run.assumptions = [
         "files are real files under /dev/shm opened by the real urlopen / package loader; remote URL schemes "
         "are not exercised (the stream handling in openResource is scheme independent)",
         "the later load uses the same SchemaLoader (schema call) or the same schema object with a fresh "
-        "ConfigLoader (configuration call); re-using a ConfigLoader whose load failed is not covered",
+        "ConfigLoader (configuration call; for the public functions: the same function call again); re-using a "
+        "ConfigLoader / ExtendedConfigLoader whose load failed is judged only when the configuration has no "
+        "%import (otherwise counted as an observation)",
+        "schema-side reference cycles (extends / <import src> of an ancestor) are not generated: they end in "
+        "RecursionError on the unchanged tree",
         "sys.modules entries of generated component packages are not ZConfig state and are purged",
     ]
     nshards = 128 if tier == "quick" else 512
@@ -666,6 +955,26 @@ def run(tier):
                 "no schema scenario loads successfully")
     run.require(x.get("scenarios_rejected_as_vacuous", 0) == 0,
                 "generator produced scenarios the vacuity guard rejects")
+    # wave 2: the new axes were really exercised
+    nconf = sum(len(trees("C", n)) for n in range(3, N + 1))
+    run.require(x.get("points_between_open_and_first_read_conv", 0) >= 3 * nconf,
+                "fewer than 3 conversion points per configuration tree between the open of a resource and its "
+                "first read (override names converted when the schema matcher is created)")
+    for k in ("loadSchema", "loadSchemaFile", "loadConfig", "loadConfigFile", "ExtendedConfigLoader.loadURL"):
+        run.require(x.get("scenarios_entry_" + k, 0) >= 13, "entry point %s used by fewer than 13 scenarios" % k)
+    for k in ("top", "all", "unknown") + (("none", "sec", "sub", "imp", "unconsumed") if tier != "quick" else ()):
+        run.require(x.get("scenarios_overrides_" + k, 0) >= 13, "override set %r in fewer than 13 scenarios" % k)
+    for k in ("top", "all"):
+        run.require(run.acc.classes.get("overrides-%s-failure-free:config-call-returned" % k, 0)
+                    == x.get("scenarios_overrides_" + k, -1),
+                    "a load with the %r override set does not succeed in the failure-free run" % k)
+    run.require(x.get("scenarios_with_back_edge", 0) >= 10 * nconf
+                and run.acc.classes.get("back-edge-failure-free:config-call-raised:ConfigurationError:"
+                                        "refused-as-cycle", 0) == x.get("scenarios_with_back_edge", -1),
+                "back-edge scenarios missing or not all refused as an include cycle")
+    run.require(x.get("reloads_with_failed_ExtendedConfigLoader", 0) > 0
+                and x.get("reloads_with_refusing_ConfigLoader", 0) > 0,
+                "no reload with a failed ExtendedConfigLoader / with a ConfigLoader that refused a cycle")
     return run
 
 
@@ -679,7 +988,7 @@ def replay(body):
         print("--- replay execution %d: scenario %s fault %s" % (n, core._short(spec, 400), fault))
         acc = core.Acc()
         root = tempfile.mkdtemp(prefix="vzc19-", dir="/dev/shm")
-        inst = F.Instrument()
+        inst = Inst()
         path0 = list(sys.path)
         try:
             inst.install()
